@@ -18,16 +18,27 @@ def processLine (st : St) (no : Nat) (line : String) : St × List String :=
         else st
       let kind := if c.op == "q" then "q." ++ c.arg 0 else if c.op == "enc" then "enc." ++ c.arg 0 else c.op
       let st := { st with kinds := st.kinds.insert kind (st.kinds.getD kind 0 + 1) }
+      -- `same=<tag>`: every command carrying the tag must produce the observation of the first one
+      -- (answers that the model leaves open - a clustered index - must still not depend on history)
+      let (st, sameOuts) : St × List String := match c.get? "same" with
+        | none => (st, [])
+        | some tag =>
+          match st.sameObs.get? tag with
+          | none => ({ st with sameObs := st.sameObs.insert tag got }, [])
+          | some first =>
+            if first == got then ({ st with checked := st.checked + 1 }, [])
+            else ({ st with checked := st.checked + 1, mismatches := st.mismatches + 1 },
+                  [s!"MISMATCH {c.lineNo} | {c.raw} | want the observation of the first command tagged same={tag}: {first} | got {got}"])
       match verdict with
-      | .none => (st, [])
+      | .none => (st, sameOuts)
       | .exact want =>
-        if want == got then ({ st with checked := st.checked + 1 }, [])
+        if want == got then ({ st with checked := st.checked + 1 }, sameOuts)
         else ({ st with checked := st.checked + 1, mismatches := st.mismatches + 1 },
-              [s!"MISMATCH {c.lineNo} | {c.raw} | want {want} | got {got}"])
+              [s!"MISMATCH {c.lineNo} | {c.raw} | want {want} | got {got}"] ++ sameOuts)
       | .pred ok descr =>
-        if ok got then ({ st with checked := st.checked + 1 }, [])
+        if ok got then ({ st with checked := st.checked + 1 }, sameOuts)
         else ({ st with checked := st.checked + 1, mismatches := st.mismatches + 1 },
-              [s!"MISMATCH {c.lineNo} | {c.raw} | want {descr} | got {got}"])
+              [s!"MISMATCH {c.lineNo} | {c.raw} | want {descr} | got {got}"] ++ sameOuts)
   else
     -- a command without observation that is still pending takes effect now
     let (st, outs) := match st.pending with
